@@ -20,4 +20,9 @@ def run(ctx):
                            "including histories cut short by crashes at every point; batch byte limits swept over every overflow position.")
 
 
+    # operations started by several threads on one context must get distinct ids (else: two STARTs for one operation)
+    from checks.c08 import shared_context_part
+    shared_context_part(ctx)
+
+
 replay = replay_execution
